@@ -65,7 +65,7 @@ Record orec := mkOR { or_name : N; or_rec : rec; or_timer : bool }.
 Record osnap := mkO {
   o_pan : bool; o_linc : N; o_leaving : bool; o_score : Z; o_nn : Z;
   o_recs : list orec; o_orph : N; o_bq : list (N * bmsg); o_nq : N;
-  o_evs : list event; o_members : list (N * (N * N)); o_now : Z; o_conc : bool; o_chan : bool }.
+  o_evs : list event; o_members : list (N * (N * N)); o_now : Z; o_conc : bool; o_chan : bool; o_lvbad : bool }.
 
 Definition since_of (i : int) : Z := if Uint63.eqb i 0 then zero_time else zi i - 1.
 
@@ -138,7 +138,7 @@ Definition dec_obs (v : list int) : option osnap :=
               | Some (es, nm :: rest4) =>
                   match dec_mem (nati nm) rest4 with
                   | Some (mems, [nw; cc]) =>
-                      Some (mkO (bi pan) (ni li) (bi lv) (zi sc) (zi nn) rs (ni orph) bs (ni nq) es mems (zi nw) (Z.odd (zi cc)) (2 <=? zi cc))
+                      Some (mkO (bi pan) (ni li) (bi lv) (zi sc) (zi nn) rs (ni orph) bs (ni nq) es mems (zi nw) (Z.odd (zi cc)) (Z.odd (zi cc / 2)) (Z.odd (zi cc / 4)))
                   | _ => None
                   end
               | _ => None
@@ -194,7 +194,7 @@ Definition snap_of (s : nstate) (evs : list event) : osnap :=
       (sort_by or_name (map (fun p => mkOR (fst p) (snd p) (match live_timer (fst p) (timers s) with Some _ => true | None => false end)) (recs s)))
       0 (sort_by fst (bq s)) (N.of_nat (length (bq s)))
       (filter (fun e => match e with EvPanic => false | _ => true end) evs)
-      (sort_by fst (members s)) (now s) false false.
+      (sort_by fst (members s)) (now s) false false false.
 
 (* first differing field: 0 = equal *)
 Definition snap_diff (m o : osnap) : N :=
@@ -368,6 +368,9 @@ Fixpoint replay (evs : list event) (v : list (N * (N * N))) : bool * list (N * (
 
 (* C08 *)
 Definition mon_C08 (c : cfg) (pre : osnap) (o : op) (post : osnap) (leave_inc : option N) : N :=
+  (* Leave reported success although a peer that is neither dead nor gone was listed and the departure had not
+     been handed out to a single packet *)
+  if o_lvbad post then 148%N else
   (* address changes only for left / reclaimable dead records *)
   if negb (forallb (fun r => match ofind (or_name r) post with
                              | Some r' => N.eqb (raddr (or_rec r)) (raddr (or_rec r')) || reclaimable c pre (or_rec r)
